@@ -11,7 +11,7 @@ RULE = ('Hypothesis generates DAG case specs (1-10 nodes over types with max_par
         'dependencies of other requested nodes; max_workers; pre-cached subset; bust_cache; context; completion '
         'schedule) and runs each under the schedule-controlling in-process Runner, and sampled ones under the real '
         'serial / fork / spawn backends in processes with different hash seeds. Engine "two-runs": a second run_tasks call on the '
-        'SAME task objects (same Lab object or a new Lab on the same storage) with another nonce, with/without bust_cache. Engine "twins": some nodes get a twin of an inheriting task type with exactly the same field '
+        'SAME task objects (same Lab object or a new Lab on the same storage) with another nonce, with/without bust_cache. Engine "scale": 130-220 leaves gathered by one or two readers followed by a chain of dependents (serial, fork, controlled). Engine "twins": some nodes get a twin of an inheriting task type with exactly the same field '
         'values (two tasks that differ only in their type), both read by one dependent. Oracle: returned keys == request '
         'list de-duplicated in order, each value == reference sequential evaluator. Non-trivial = closure of >= 3 '
         'nodes and at least one of: shared dependency, duplicate equal instance, dependency nested at container '
@@ -86,6 +86,7 @@ def plan(tier: str) -> list[dict]:
     jobs.append({'engine': 'twins:controlled', 'n': 100 if q else 2500, 'hashseed': 0})
     jobs.append({'engine': 'twins:serial', 'n': 40 if q else 1000, 'hashseed': 1})
     jobs.append({'engine': 'twins:fork', 'n': 10 if q else 300, 'hashseed': 2})
+    jobs.append({'engine': 'scale', 'n': 3 if q else 60, 'hashseed': 3})
     return list(jobs) + dagprop.exhaustive_jobs(tier, 4)
 
 
@@ -100,6 +101,13 @@ def run_job(rec: core.Recorder, job: dict, seed: int) -> None:
         strat = st.builds(lambda sp, same, bust: {**sp, 'second': {'same_lab': same, 'bust': bust}},
                           specs.dag_spec(max_nodes=7, backends=(b,), dup_bias=(seed % 2 == 0), storages=('local', 'local', 'none')), st.booleans(), st.booleans())
         core.run_hypothesis(rec, eng, strat, check_two_runs, max_examples=job['n'], seed=seed, shrink=(b != 'fork' or rec.tier == 'thorough'))
+        return
+    if eng == 'scale':
+        from hypothesis import strategies as st
+
+        from pbt.props import c17
+        strat = st.builds(lambda sp, b: {**sp, 'lab': {**sp['lab'], 'backend': b}}, c17.scale_spec(), st.sampled_from(['fork', 'serial', 'controlled']))
+        core.run_hypothesis(rec, eng, strat, check, max_examples=job['n'], seed=seed, shrink=False)
         return
     if eng.startswith('twins:'):
         b = eng.split(':')[1]
